@@ -29,7 +29,9 @@ def iterInverse (idxs : List Nat) : Nat → Option (List Nat)
 
 /-- layout variants of a request are the same request for the model (and for the reference) -/
 def stripLayout (op : String) : String :=
-  if op = "transform_f" || op = "transform_t" then "transform"
+  if op = "inplace_strided" || op = "inplace_collapsed" || op = "inplace_reversed" then "inplace"
+  else if op = "dinplace_strided" || op = "dinplace_collapsed" || op = "dinplace_reversed" then "dinplace"
+  else if op = "transform_f" || op = "transform_t" then "transform"
   else if op = "into_strided" then "into" else if op = "invinto_strided" then "invinto" else op
 
 /-- the loop of `apply_vec_into` with an explicit destination (`perm_v[new_idx] = v[old_idx]`): only needed for
